@@ -699,8 +699,33 @@ func init() {
 				return combinatorUnwiredCase(c)
 			case 2:
 				return paramChainRunToCase(c)
+			case 3:
+				if c.Tape.Choose(simrt.StGen, 3, 0) == 1 {
+					return severalLeavesRunToCase(c)
+				}
 			}
 			w := Generate(c.Tape, tierProfile(profC16, c.Tier))
+			if c.Tape.Choose(simrt.StGen, 4, 0) == 1 {
+				// a process whose name contains a dot (a tool version): names are free text
+				var ps []int
+				for i := range w.Nodes {
+					if w.Nodes[i].Kind == KProc {
+						ps = append(ps, i)
+					}
+				}
+				if len(ps) > 0 {
+					n := &w.Nodes[ps[c.Tape.Choose(simrt.StGen, len(ps), 0)]]
+					old, nu := n.Name, n.Name+"_0.7"
+					n.Name = nu
+					for k := range n.Outs {
+						n.Outs[k].Pattern = strings.ReplaceAll(n.Outs[k].Pattern, "."+old+".", "."+nu+".")
+					}
+					for k := range n.Extras {
+						n.Extras[k] = strings.ReplaceAll(n.Extras[k], "_"+old+"_", "_"+nu+"_")
+					}
+					c.Probe("process-name-with-a-dot")
+				}
+			}
 			// some parameter sources are CommandToParams components: they run a
 			// command of their own, which counts like any other process' command
 			cmdSrc := map[string]string{} // node name -> its script
@@ -895,6 +920,47 @@ func init() {
 }
 
 var _ = fmt.Sprint
+
+// severalLeavesRunToCase: RunTo names two or three processes without out-ports.
+// The library documents that it refuses workflows with more than one such
+// process (before any command); if it runs them, RunTo must execute ALL tasks
+// of all named processes before it returns.
+func severalLeavesRunToCase(c *Case) Verdict {
+	t := c.Tape
+	w := &WF{Name: "wf", Sources: map[string]string{}, MaxTasks: 2 + t.Choose(simrt.StGen, 3, 0), Bufsize: bufsizeOf(t)}
+	e := Edge{srcNode(w, "src0", 1+t.Choose(simrt.StGen, 3, 0), ""), "out"}
+	if t.Choose(simrt.StGen, 2, 0) == 1 {
+		e = Edge{oneToOne(w, "pre", e), "o0"}
+	}
+	for _, nm := range []string{"enda", "endb", "endc"}[:2+t.Choose(simrt.StGen, 2, 0)] {
+		addNode(w, Node{Name: nm, Kind: KProc, Cores: 1, Ins: []InSpec{{Name: "a", From: []Edge{e}}}})
+		w.RunTo = append(w.RunTo, nm)
+	}
+	w.RunToMode = []int{0, 2}[t.Choose(simrt.StGen, 2, 0)]
+	c.Sample = "RunTo names several processes without out-ports: " + sample(w)
+	c.Probe("runto-several-sinkless-targets")
+	ex := Eval(w)
+	inc := RunInc(w, c.Tape, nil, 0, IncOpts{KillAt: -1, Strategy: strategyOf(c.Tape), Trace: c.Trace})
+	c.Absorb(inc)
+	c.Tasks = 2
+	if v, ok := inconclusiveEnd(inc); ok {
+		return v
+	}
+	if inc.Sim.End == simrt.EndDeadlock {
+		return Viol("runto-hang", "several-leaves", "RunTo with several targets without out-ports never returns: %s", endDesc(inc))
+	}
+	if !inc.RT.RunReturned {
+		if us := userScripts(inc); len(us) > 0 {
+			return Viol("unwired-executed", "several-leaves", "the workflow was refused (%s), yet command(s) were executed first: %v", endDesc(inc), us)
+		}
+		return OK()
+	}
+	got := execKeys(inc.Sim.Shell.Trace, "exit", 0)
+	if missing, _ := multisetDiff(got, ex.TaskKeys()); len(missing) > 0 || len(inc.RT.ReturnRunning) > 0 {
+		return Viol("task-lost", "several-leaves", "RunTo%v returned, but task(s) of named processes were not executed (missing %v, still running %v)", w.RunTo, missing, inc.RT.ReturnRunning)
+	}
+	return OK()
+}
 
 // userScripts: the scripts the program started, without the library's own
 // housekeeping (mkfifo / rm of a FIFO).
